@@ -377,10 +377,36 @@ func Run(sc Scenario, hb HostileBlob, watchdog time.Duration) (out Outcome) {
 	// allowance grows with the window instead of waiting for it to elapse
 	allowance := sc.Bound + 3*lastFault["Load"]
 	boundStart := -1
+	// A List cycle is not a unit of download or decompression work: on a loaded machine one multi-megabyte blob can
+	// take hundreds of cycles. The bound therefore runs from the last PROGRESS: a delivery, or the first successful
+	// download of a name. Retrying the same name is not progress; a receiver that is stuck makes none.
+	lastProgress := -1
+	progress := func() int {
+		seen := map[string]bool{}
+		for _, e := range b.Log() {
+			if e.Op == "Load" && e.Err == "" {
+				seen[e.Name] = true
+			}
+		}
+		dmu.Lock()
+		n := len(out.Deliveries)
+		dmu.Unlock()
+		return n + len(seen)
+	}
+	nextProgressCheck := 0
 	for {
 		lc := int(atomic.LoadInt32(&listCycles))
 		if boundStart < 0 && lc >= startBound {
 			boundStart = lc
+		}
+		if boundStart >= 0 && lc >= nextProgressCheck {
+			nextProgressCheck = lc + 50
+			if pr := progress(); pr != lastProgress {
+				if lastProgress >= 0 {
+					boundStart = lc
+				}
+				lastProgress = pr
+			}
 		}
 		if boundStart >= 0 && satisfied() {
 			out.CyclesToAll = lc - boundStart
@@ -402,7 +428,7 @@ func Run(sc Scenario, hb HostileBlob, watchdog time.Duration) (out Outcome) {
 			}
 			dmu.Unlock()
 			sort.Strings(missing)
-			out.Violations = append(out.Violations, Finding{"not-delivered-within-bound", fmt.Sprintf("after %d List cycles without bucket changes or List faults the newest decodable snapshot was not delivered for: %s", allowance, strings.Join(missing, "; "))})
+			out.Violations = append(out.Violations, Finding{"not-delivered-within-bound", fmt.Sprintf("after %d List cycles without bucket changes, List faults or any progress (no delivery, no first download of a name) the newest decodable snapshot was not delivered for: %s", allowance, strings.Join(missing, "; "))})
 			break
 		}
 		if time.Now().After(deadline) {
